@@ -1,0 +1,42 @@
+//go:build verif
+
+package keeper
+
+import (
+	ccv "github.com/cosmos/interchain-security/v7/x/ccv/types"
+)
+
+// This file is only compiled with the build tag "verif". It lets a verification harness wrap the
+// keeper's external keepers (e.g. with fault-injecting decorators). It does not change any behaviour.
+
+// VerifExternalKeepers is the set of external keepers of the provider keeper.
+type VerifExternalKeepers struct {
+	Channel      ccv.ChannelKeeper
+	Connection   ccv.ConnectionKeeper
+	Client       ccv.ClientKeeper
+	Staking      ccv.StakingKeeper
+	Distribution ccv.DistributionKeeper
+	Bank         ccv.BankKeeper
+}
+
+// VerifGetExternalKeepers returns the external keepers currently in use.
+func (k *Keeper) VerifGetExternalKeepers() VerifExternalKeepers {
+	return VerifExternalKeepers{
+		Channel:      k.channelKeeper,
+		Connection:   k.connectionKeeper,
+		Client:       k.clientKeeper,
+		Staking:      k.stakingKeeper,
+		Distribution: k.distributionKeeper,
+		Bank:         k.bankKeeper,
+	}
+}
+
+// VerifSetExternalKeepers replaces the external keepers.
+func (k *Keeper) VerifSetExternalKeepers(e VerifExternalKeepers) {
+	k.channelKeeper = e.Channel
+	k.connectionKeeper = e.Connection
+	k.clientKeeper = e.Client
+	k.stakingKeeper = e.Staking
+	k.distributionKeeper = e.Distribution
+	k.bankKeeper = e.Bank
+}
